@@ -105,9 +105,9 @@ def run(ctx):
         return core.finish(ctx)
     if drv:
         quick = ctx.tier == "quick"
-        core.trace_component(ctx, "container", ["random", "--seed", ctx.seed, "--cases", 20 if quick else 100, "--progs", 150 if quick else 1000],
+        core.trace_component(ctx, "container", ["random", "--seed", ctx.seed, "--cases", 20 if quick else 100, "--progs", 150 if quick else 500],
                              label="container.random", oracle=registry_oracle)
-        core.trace_component(ctx, "container", ["exhaustive", "--seed", ctx.seed + 1, "--cases", 2500 if quick else 60000, "--progs", 5 if quick else 16,
+        core.trace_component(ctx, "container", ["exhaustive", "--seed", ctx.seed + 1, "--cases", 2500 if quick else 20000, "--progs", 5 if quick else 16,
                                                 "--preempt", 2 if quick else 3], label="container.exhaustive", oracle=registry_oracle)
     return core.finish(
         ctx, level="proof",
